@@ -7,6 +7,8 @@ package aggregator
 // live checkers, disk cache), aggregator.Aggregator handlers, goTicker, goInsert, row marshalling,
 // sendToClickhouse. Simulated: RPC wire (SimClient/simConn), ClickHouse (http.RoundTripper), clock,
 // scheduler, faults. Decides C01, C10 (routing clauses), C03.
+// Handler pauses (w1_pause_test.go): in a drawn part of the runs handlers of historic requests are in the
+// middle of their row loop when ticker and inserters take buckets at a second boundary.
 
 import (
 	"fmt"
@@ -68,6 +70,8 @@ type w1Config struct {
 	faultsStop    int  // second of the run at which faults stop
 	spareScenario bool // the only fault is one replica being down for a while
 	spareReplica  int
+	handlerPause  int  // 0: handlers run through; 1: handlers of selected historic requests pause between two rows (w1_pause_test.go); 2: same, and every insert takes a few milliseconds
+	chLatency     bool // every ClickHouse insert takes 1-50 ms of fake time (not a fault)
 }
 
 type w1Replica struct {
@@ -125,6 +129,12 @@ type w1World struct {
 
 	rngMu sync.Mutex
 	rng   *verifsim.SplitMix
+
+	// handler pauses (w1_pause_test.go)
+	pauseMu    sync.Mutex
+	pausers    map[uint64]*w1Pause // by goroutine id of the delivering goroutine
+	pauseBusy  [3]bool
+	pauseArmed atomic.Int32
 
 	lastWork []uint32 // per agent: last second the workload was applied for
 	zombies  []*w1Inst
@@ -316,6 +326,14 @@ func w1Run(t *testing.T, r *verifsim.Run) {
 			cfg.partitions, cfg.agentCrashes, cfg.repCrashes = false, false, true
 		}
 	}
+	// handler pauses: a scheduling device, drawn independently of the faults (value 0: handlers run through)
+	cfg.handlerPause = c.Intn(3, "handler_pause")
+	cfg.chLatency = cfg.handlerPause == 2
+	if cfg.handlerPause != 0 {
+		verifhook.SetOnPoint(w.onPoint)
+		defer verifhook.SetOnPoint(nil)
+	}
+	r.Config["handler_pause"], r.Config["insert_latency"] = cfg.handlerPause, cfg.chLatency
 	r.Config["agents"], r.Config["run_len_s"], r.Config["historic_window_s"] = cfg.agents, cfg.runLen, cfg.window
 	r.Config["short_window"], r.Config["inserters"], r.Config["save_immediately"] = cfg.shortWindow, cfg.inserters, cfg.saveImm
 	r.Config["receive_budget"], r.Config["keys"], r.Config["faulty"] = cfg.receiveBudget, cfg.keys, cfg.faulty
